@@ -404,6 +404,10 @@ EDGE = {
         "dash_key2": "with an underscore",
         "a": {"b-c": {"d_e": "deep {{ x }}", "d-f": "$t(a.b-c.d_e, {\"x\": \"y\"})"}},
         "only_numbers": {"n": 1, "b": True, "f": 2.5},
+        # long texts of equal length that only differ in the middle
+        "terms_30": "You may return any item in its original packaging for a full refund within 30 days of the delivery date, provided that the receipt is enclosed with the parcel.",
+        "terms_14": "You may return any item in its original packaging for a full refund within 14 days of the delivery date, provided that the receipt is enclosed with the parcel.",
+        "terms_range": [["no returns", 0], ["You may return any item in its original packaging for a full refund within 30 days of the delivery date, provided that the receipt is enclosed with the parcel."]],
         "escaped": "{{ \"literal\" }} braces? no: plain",
         "comp_attr": "<a>link</a> and <b>bold {{ x }}</b>",
     },
@@ -420,9 +424,12 @@ EDGE = {
         "temp": ["f64", ["gel", "..0.0"], ["doux {{ count }}", "0.0..=25.5"], ["chaud"]],
         "a": {"b-c": {"d_e": "profond {{ x }}"}},
         "only_numbers": {"n": 2, "b": False, "f": 3.5},
+        "terms_30": "Vous pouvez retourner tout article dans son emballage d'origine pour un remboursement complet sous 30 jours après la date de livraison, si le reçu est joint au colis.",
+        "terms_14": "Vous pouvez retourner tout article dans son emballage d'origine pour un remboursement complet sous 14 jours après la date de livraison, si le reçu est joint au colis.",
     },
-    "fr-CA": {},
-    "zh-Hant-TW": {"word_place": "名", "item_other": "{{ count }} 個", "item_label": "項目："},
+    "fr-CA": {"a": None},
+    # a locale listed after an inheriting locale that has nothing for a subkeys group, defining that group itself
+    "zh-Hant-TW": {"word_place": "名", "item_other": "{{ count }} 個", "item_label": "項目：", "a": {"b-c": {"d_e": "深 {{ x }}"}}, "only_numbers": {"n": 3, "b": True, "f": 4.5}},
 }
 del EDGE["en"]["escaped"]
 
